@@ -1,6 +1,6 @@
 SPECIFICATION Spec
 CONSTANTS
-  Alphabet = {97, 67, 122, 53, 50, 36, 45, 46, 95, 32, 37, 34, 92, 1, 127, 128, 255, 0}
+  Alphabet = {97, 67, 122, 48, 53, 50, 36, 45, 46, 95, 32, 37, 34, 92, 1, 127, 128, 255, 0}
   MaxLen = 2
   ExtraStrings <- DefaultExtras
   PairLen = 1
